@@ -119,8 +119,17 @@ def large_pools(res, work, n):
             fam = rng.choice(QUALIFIER_FAMILIES)
             quals = [fam(j) for j in range(1, size + 1)]
             pool = [rng.choice("TTFFKI") for _ in range(size)]
+            if size >= 3 and rng.random() < 0.2:
+                # a qualifier listed more than once (with different expressions): it is admissible iff one of its entries is
+                for _ in range(rng.randint(1, max(1, size // 3))):
+                    i, j = sorted(rng.sample(range(size), 2))
+                    quals[j] = quals[i]
+                if len(set(quals)) < 2:
+                    quals[-1] = quals[-1] + "9"
             sub = random.Random(rng.random())
-            entries = [ValuePoolEntry(qualifier=q, meaning=f"m{q}", ahb_expression=V.entry_expression(e, sub)) for q, e in zip(quals, pool)]
+            dyn = {}
+            entries = [ValuePoolEntry(qualifier=q, meaning=f"m{q}", ahb_expression=V.entry_expression(e, sub, dyn=dyn, slot=j))
+                       for j, (q, e) in enumerate(zip(quals, pool), start=1)]
             kind = rng.random()
             if kind < 0.15:
                 inp, idx = rng.choice([None, ""]), -1
@@ -137,14 +146,22 @@ def large_pools(res, work, n):
                 idx = quals.index(inp) + 1 if inp in quals else 0
             seg = rng.choice(["REQUIRED", "REQUIRED", "OPTIONAL", "FORBIDDEN"])
             el = DataElementValuePool(discriminator="n1", value_pool=entries, data_element_id="0333", entered_input=inp)
-            V.setup_cer()
+            V._DYN_PACKAGES[id(el)] = dyn
+            V.setup_cer(el)
             try:
                 r = V.project_result(await validate_data_element_valuepool(el, {"REQUIRED": R.IS_REQUIRED, "OPTIONAL": R.IS_OPTIONAL, "FORBIDDEN": R.IS_FORBIDDEN}[seg]))
             except BaseException as e:  # pylint:disable=broad-except
                 res.violation(f"validate_data_element_valuepool raised {type(e).__name__} for qualifiers {quals} entries {pool} input {inp!r}", {"kind": "large-pool"})
                 continue
             offered = [quals.index(f"{q}") + 1 for q in _offered_qualifiers(r, quals)]
-            traces.append({"id": tid, "pool": pool, "inp": idx, "seg": seg, "quals": quals, "entered": inp,
+            tpool, tidx = pool, idx
+            if len(set(quals)) < len(quals):
+                # judged on the level of qualifiers (first occurrences, in pool order); the ORDER of the offered qualifiers is not judged for such pools
+                uniq = list(dict.fromkeys(quals))
+                tpool = ["T" if any(e in "TI" for q2, e in zip(quals, pool) if q2 == q) else "F" for q in uniq]
+                tidx = uniq.index(inp) + 1 if inp in uniq else idx
+                offered = sorted({uniq.index(q) + 1 for q in _offered_qualifiers(r, quals)})
+            traces.append({"id": tid, "pool": tpool, "inp": tidx, "seg": seg, "quals": quals, "entered": inp, "entries": pool,
                            "result": {"offered": offered, "forbidden": r["status"] == "FORBIDDEN", "fill": r["fill"], "flagged": r["flagged"]}})
 
     def _offered_qualifiers(r, quals):
@@ -163,7 +180,7 @@ def large_pools(res, work, n):
         asyncio.run(go())
     finally:
         V.project_result = orig
-    slim = [{k: v for k, v in t.items() if k not in ("quals", "entered")} for t in traces]
+    slim = [{k: v for k, v in t.items() if k not in ("quals", "entered", "entries")} for t in traces]
     t2, acc, diag = validate_traces("PoolTrace", "PoolTrace.cfg", slim, work, tag="pooltrace")
     res.add_tlc(f"PoolTrace: real results for {len(traces)} random pools of 1-14 entries with overlapping qualifier spellings decided by TLC against the pool rules", t2)
     res.count("large_pools", len(traces))
@@ -171,7 +188,7 @@ def large_pools(res, work, n):
         res.distinct(("pool", tuple(t["pool"]), tuple(t["quals"]), t["entered"], t["seg"]))
         if t["id"] not in acc:
             at, exp = diag.get(t["id"], (0, ()))
-            res.violation(f"value pool with qualifiers {t['quals']} (entry outcomes {t['pool']}), entered {t['entered']!r}, segment {t['seg']}: code {t['result']}; "
+            res.violation(f"value pool with qualifiers {t['quals']} (entry outcomes {t['entries']}), entered {t['entered']!r}, segment {t['seg']}: code {t['result']}; "
                           f"documented {exp}", {"kind": "large-pool", "quals": t["quals"], "pool": t["pool"], "entered": t["entered"], "seg": t["seg"]})
 
 
